@@ -296,6 +296,101 @@ fn gen_hist(rng: &mut Rng) {
     emit(if n_ok * 2 >= n { "hist/mostly_ok" } else { "hist/mostly_rejected" }, &format!("Hist {w0} [{}]", items.join("; ")));
 }
 
+// ------------------------------------------------------------------ SwapVault: the real SwapMarkets::revertible_swap
+const TOKS: [(u64, u64, u64); 8] = [(9, 0, 1), (9, 1, 2), (8, 2, 3), (8, 0, 2), (9, 3, 1), (8, 2, 2), (9, 1, 0), (9, 3, 0)];
+
+fn gen_swap_vault(rng: &mut Rng) {
+    use gmsol_store::states::common::swap::SwapActionParams;
+    use gmsol_store::states::Market;
+    use gmsol_store::verif_hooks_g9 as hk;
+    use gmsol_verif_harness::g9mk::market_token;
+    let mut env = Env::new();
+    for t in [0u64, 1, 2, 3, 8, 9] {
+        let v = 1_000_000 + (t as u32) * 37_000;
+        env.set_price(t, v, v + (t as u32 % 3) * 500, 8);
+    }
+    for (id, (ix, l, s)) in TOKS.iter().enumerate() { env.add_market(id as u64, *ix, *l, *s, None, true); }
+    let mut vaults = [0u128; 4];
+    for k in 0..8usize {
+        let (_, l, s) = TOKS[k];
+        let bal = 2_000_000_000_000 + rng.below(1_000_000_000_000);
+        env.fund(k, 1_000_000_000_000, 1_000_000_000_000, bal, bal);
+        vaults[l as usize] += bal as u128;
+        if l != s { vaults[s as usize] += bal as u128; }
+    }
+    if rng.chance(1, 3) { vaults[rng.below(4) as usize] += rng.below(1_000_000) as u128; } // a donation
+    let cur = *rng.pick(&[0u64, 1, 2, 3, 4, 6, 7]);
+    let (_, cl, cs) = TOKS[cur as usize];
+    let chain = |rng: &mut Rng, start: u64, len: usize, avoid: &[u64]| -> (Vec<u64>, u64) {
+        let mut tok = start;
+        let mut path: Vec<u64> = vec![];
+        for _ in 0..len {
+            let cands: Vec<u64> = (0..8).filter(|m| { let (_, l, s) = TOKS[*m as usize]; l != s && (l == tok || s == tok) && !path.contains(m) && !avoid.contains(m) }).collect();
+            if cands.is_empty() { break; }
+            let m = cands[rng.below(cands.len() as u64) as usize];
+            let (_, l, s) = TOKS[m as usize];
+            path.push(m);
+            tok = if tok == l { s } else { l };
+        }
+        (path, tok)
+    };
+    let is_into = rng.chance(3, 5);
+    // Into: the path ends in the current market (tokens are handed over from the last other market) most of the time
+    let (p1, tin, tout, first_holder): (Vec<u64>, u64, u64, u64) = if is_into {
+        if rng.chance(3, 4) {
+            let n = 1 + rng.below(2) as usize;
+            let (p, end) = chain(rng, cs, n, &[cur]);
+            let mut path: Vec<u64> = p.iter().rev().cloned().collect();
+            path.push(cur);
+            let first = path[0];
+            (path, end, cl, first)
+        } else {
+            let n = 1 + rng.below(3) as usize;
+            let (p, end) = chain(rng, cl, n, &[cur]);
+            let path: Vec<u64> = p.iter().rev().cloned().collect();
+            let first = *path.first().unwrap_or(&cur);
+            (path, end, cl, first)
+        }
+    } else {
+        let n = 1 + rng.below(3) as usize;
+        let (p, end) = chain(rng, cl, n, &[]);
+        (p, cl, end, cur)
+    };
+    let a1 = match rng.below(6) { 0 => 1_000, _ => 1_000_000 + rng.below(2_000_000_000) };
+    // the real transfer-in of the swapped tokens: into the current market (From) or the first market of the path (Into)
+    env.with_market(first_holder as usize, |m| m.record_transferred_in_by_token(&token(tin), &a1).unwrap());
+    vaults[tin as usize] += a1 as u128;
+    let snap5 = |env: &mut Env| -> Vec<String> { (0..8usize).map(|k| { let (bl, bs) = env.balances(k); let (_, l, s) = TOKS[k]; format!("({k}, {l}, {s}, {bl}, {bs})") }).collect() };
+    let ms0 = snap5(&mut env);
+    let mut params = SwapActionParams::default();
+    params.primary_length = p1.len() as u8;
+    for (i, m) in p1.iter().enumerate() { params.paths[i] = market_token(*m); }
+    params.current_market_token = market_token(cur);
+    let mut lids: Vec<u64> = vec![];
+    for m in p1.iter() { if *m != cur && !lids.contains(m) { lids.push(*m); } }
+    let loaders: Vec<AccountLoader<'static, Market>> = lids.iter().map(|m| env.loader(*m as usize)).collect();
+    let loaders_ref: &'static [AccountLoader<'static, Market>] = unsafe { &*(loaders.as_slice() as *const _) };
+    let cur_loader = env.loader(cur as usize);
+    let cur_ref: &'static AccountLoader<'static, Market> = unsafe { &*(&cur_loader as *const _) };
+    let ev = env.ev_info();
+    let store = env.store;
+    let oracle_ref: &'static gmsol_store::states::Oracle = unsafe { &*(&*env.oracle as *const _) };
+    let res = std::panic::catch_unwind(std::panic::AssertUnwindSafe(move || hk::run_revertible_swap(
+        &store, cur_ref, loaders_ref, is_into, oracle_ref, &params,
+        (token(tout), token(cs)), (Some(token(tin)), Some(token(cs))), (a1, 0),
+        ev, 255, true, |r, _m, _s| match r { Ok(x) => Ok(*x), Err(e) => Err(code(e)) },
+    ))).ok();
+    let _ = g9rt::take_invokes();
+    let ok = matches!(res, Some(Ok(Ok(_))));
+    drop(loaders);
+    drop(cur_loader);
+    let ms1 = snap5(&mut env);
+    let ends_in_cur = is_into && p1.last() == Some(&cur) && p1.len() >= 2;
+    let tag = if !ok { "swapvault/rejected" } else if ends_in_cur { "swapvault/into_ends_in_current" } else if is_into { "swapvault/into" } else { "swapvault/from" };
+    emit(tag, &format!("SwapVault [{}] [{}] [{}] {}", ms0.join("; "),
+        vaults.iter().enumerate().map(|(t, v)| format!("({t}, {v})")).collect::<Vec<_>>().join("; "), ms1.join("; "), b(ok)));
+}
+
 fn main() {
     let a = args();
     if std::env::var("G9_PANIC").is_err() { silence_panics(); }
@@ -303,6 +398,6 @@ fn main() {
     g9rt::set_clock(10, 1_700_000_000);
     let mut rng = Rng::new(a.seed);
     for i in 0..a.n {
-        if i % 3 == 0 { gen_val(&mut rng) } else { gen_hist(&mut rng) }
+        if i % 4 == 0 { gen_val(&mut rng) } else if i % 4 == 1 { gen_swap_vault(&mut rng) } else { gen_hist(&mut rng) }
     }
 }
